@@ -10,6 +10,11 @@ from .model import AnalysisError, program
 
 VERIF = os.path.dirname(os.path.dirname(os.path.abspath(__file__)))
 
+
+def evidence_dir():
+    # scratch runs (seeded variants, self-test twins) must not overwrite the committed evidence
+    return os.environ.get('VERIF_EVIDENCE_DIR') or os.path.join(VERIF, 'evidence')
+
 HOLDS, VIOLATION, UNDECIDED, INFO = 'holds', 'violation', 'undecided', 'info'
 
 
@@ -128,7 +133,7 @@ class Run:
             if k.get('status') == 'known' and self.pid in k.get('properties', []) and k['key'] not in seen_known:
                 stale.append(k)
                 lines.append('STALE-KNOWN-FINDING: property=%s key=%s (no longer reported)' % (self.pid, k['key']))
-        rdir = os.path.join(VERIF, 'evidence', 'replay', self.pid)
+        rdir = os.path.join(evidence_dir(), 'replay', self.pid)
         for v in new_v:
             if only_key is not None and v['key'] != only_key:
                 continue
@@ -140,7 +145,7 @@ class Run:
             lines.append('%s: [%s/%s] %s :: %s' % (v['where'], v['rule'], v['subject'], v['msg'], v['construct'][:160]))
             if v.get('path'):
                 lines.append('    path: ' + ' -> '.join(v['path']))
-            lines.append('VIOLATION property=%s replay=%s' % (self.pid, os.path.relpath(rp, VERIF)))
+            lines.append('VIOLATION property=%s replay=%s' % (self.pid, os.path.relpath(rp, VERIF) if rp.startswith(VERIF) else rp))
             code = 1
         if self.errors:
             for e in self.errors:
@@ -216,7 +221,7 @@ class Run:
 
 
 def write_evidence(pid, ev):
-    d = os.path.join(VERIF, 'evidence')
+    d = evidence_dir()
     os.makedirs(d, exist_ok=True)
     tmp = os.path.join(d, pid + '.json.tmp')
     with open(tmp, 'w') as fh:
